@@ -661,7 +661,11 @@ def opC15Write : List String → Res
       match newQuery intOracle raw with
       | .ok (some q) => match outReqOf q raw gs (final = "1") with
         | some r =>
-          let fs0 : FS := if pre = "none" then [] else [(path, (unhex pre).getD [])]
+          let (preOut, preTmp) := match pre.splitOn "/" with
+            | [o, t] => (o, t)
+            | _ => (pre, "none")
+          let fs0 : FS := (if preOut = "none" then [] else [(path, (unhex preOut).getD [])])
+            ++ (if preTmp = "none" then [] else [(path ++ TMP, (unhex preTmp).getD [])])
           let ops := writeResultOps fs0 r
           let old := fsGet fs0 path
           let okState (fs : FS) : Bool :=
@@ -678,7 +682,8 @@ def opC15Write : List String → Res
             { m := s!"ops={joinWith " " (ops.map (renderOp path))};{stateStr fs path}",
               s := specOut,
               t := joinWith "," ((if r.append then ["append"] else ["replace"]) ++ (if r.final then ["final"] else ["interim"])
-                ++ (if old.isSome then ["existing"] else []) ++ (if r.rows.length > 1 then ["rows"] else [])
+                ++ (if old.isSome then ["existing"] else []) ++ (if preTmp ≠ "none" then ["stale-tmp"] else [])
+                ++ (if r.rows.length > 1 then ["rows"] else [])
                 ++ (if r.limit ≥ 0 then ["limit"] else [])) }
           else
             -- kill run: the observed state must be the state after some prefix of the operations
